@@ -47,6 +47,17 @@ CHECKS = {
             "trusted: lxml's XSD validator, float.hex comparison; values outside the alphabet and >2 simultaneous deviations "
             "are not covered",
             "DESIGN.md §4 C14"),
+    "C20": ("exhaustive enumeration: all lattice polylines x arc lengths against an independent arc-length walker; all "
+            "joinable ordered pairs for merge; ALL directed lanelet graphs on n<=4 (thorough n=5, <=6 edges) x start x range "
+            "limits for successor/predecessor enumeration, each call under a non-termination alarm",
+            "Complete enumeration of (a) every centre line of <=3 (thorough <=4) steps from a 6-step integer-length lattice "
+            "x 3 boundary-offset schemes x every vertex / mid / quarter / end arc length, (b) 1600 joinable pairs x 3 ways of "
+            "declaring the relation x both argument orders, (c) every digraph without self-loops on up to 4 lanelets (4096 "
+            "for n=4; thorough adds n=5 up to 6 edges) x 2 length assignments x every start x 6 ranges, checking every "
+            "chain clause of the statement and termination.",
+            "trusted: the arc-length walker and chain-clause checker (60 lines); graphs larger than the bound and polylines "
+            "off the lattice are not covered; completeness of the chain set is not asserted beyond the stated clauses",
+            "DESIGN.md §4 C20"),
 }
 
 NOT_YET = {}
